@@ -92,12 +92,12 @@ type CrashCase struct {
 	Handled bool `json:"handled,omitempty"`
 	// JobsCatch: the monitors of the running jobs record the signal
 	// ("_errors: Caught signal terminated") instead of vanishing.
-	JobsCatch bool   `json:"jobs_catch,omitempty"`
+	JobsCatch bool `json:"jobs_catch,omitempty"`
 	// Straggle: the monitors of the jobs running at the interruption stay
 	// alive and record the signal only after the restarted mrp has started
 	// the next attempt of their job.
-	Straggle bool `json:"straggle,omitempty"`
-	Effect    string `json:"effect,omitempty"`
+	Straggle bool   `json:"straggle,omitempty"`
+	Effect   string `json:"effect,omitempty"`
 }
 
 type crashOutcome struct {
